@@ -3,6 +3,11 @@
 #ifndef VF_INVERSE_REAL_H
 #define VF_INVERSE_REAL_H
 #include <Fastor/Fastor.h>
+#include "inverse_calls.h"
+#include <map>
+#include <string>
+#include <fstream>
+#include <sstream>
 #include <cstdio>
 #include <cmath>
 #include <cstdint>
@@ -19,18 +24,8 @@
 namespace c10r {
 using namespace Fastor;
 typedef long double ld;
-enum { SIMPLE = 0, SIMPLEPIV = 1, SIMPLELU = 2, SIMPLELUPIV = 3, BLOCKLU = 4, BLOCKLUPIV = 5, UT = 6, LUT = 7 };
-static const char* sname(int s) { static const char* n[] = {"simple","simplepiv","simplelu","simplelupiv","blocklu","blocklupiv","ut","lut"}; return n[s]; }
-
-template<class T, int S, size_t n> struct Call;
-template<class T, size_t n> struct Call<T,SIMPLE,n> { static Tensor<T,n,n> go(const Tensor<T,n,n>& A) { return inverse<InvCompType::SimpleInv>(A); } };
-template<class T, size_t n> struct Call<T,SIMPLEPIV,n> { static Tensor<T,n,n> go(const Tensor<T,n,n>& A) { return inverse<InvCompType::SimpleInvPiv>(A); } };
-template<class T, size_t n> struct Call<T,SIMPLELU,n> { static Tensor<T,n,n> go(const Tensor<T,n,n>& A) { return inverse<InvCompType::SimpleLU>(A); } };
-template<class T, size_t n> struct Call<T,SIMPLELUPIV,n> { static Tensor<T,n,n> go(const Tensor<T,n,n>& A) { return inverse<InvCompType::SimpleLUPiv>(A); } };
-template<class T, size_t n> struct Call<T,BLOCKLU,n> { static Tensor<T,n,n> go(const Tensor<T,n,n>& A) { return inverse<InvCompType::BlockLU>(A); } };
-template<class T, size_t n> struct Call<T,BLOCKLUPIV,n> { static Tensor<T,n,n> go(const Tensor<T,n,n>& A) { return inverse<InvCompType::BlockLUPiv>(A); } };
-template<class T, size_t n> struct Call<T,UT,n> { static Tensor<T,n,n> go(const Tensor<T,n,n>& A) { return tinverse<InvCompType::SimpleInv, UpLoType::Upper>(A); } };
-template<class T, size_t n> struct Call<T,LUT,n> { static Tensor<T,n,n> go(const Tensor<T,n,n>& A) { return tinverse<InvCompType::SimpleInv, UpLoType::UniLower>(A); } };
+using namespace icall;
+static const char* sname(int s) { return names[s]; }
 
 struct Rng { uint64_t s; explicit Rng(uint64_t x) : s(x * 0x9E3779B97F4A7C15ULL + 0x1234567ULL) {}
     uint64_t next() { s ^= s << 13; s ^= s >> 7; s ^= s << 17; return s; }
@@ -132,6 +127,105 @@ static void run_real_batched(unsigned seed) {
         worst = std::max(worst, ratio);
     }
     std::printf("real T=%s strat=batched nb=%zu n=%zu seed=%u cfg=%s | %s ratio=%.4Lg\n", sizeof(T) == 4 ? "float" : "double", NB, J, seed, CFGNAME, ok ? "ok" : "FAIL", worst);
+}
+
+// ---------------------------------------------------------------------------------------------------------------
+// EXACT runs in float / double: integer matrices on which every value the algorithm divides by is +-2^k, so that
+// every intermediate quantity is a dyadic rational with few bits and IEEE arithmetic is exact.  The result is
+// printed as a digest of canonical rational strings and compared bit for bit with the exact model (this is what
+// reaches the SSE/AVX intrinsic leaf kernels _inverse<float|double,2|4>, which the rational carrier cannot run).
+static inline uint64_t fnv1a(uint64_t h, const std::string& s) { for (unsigned char c : s) { h ^= (uint64_t)c; h *= 1099511628211ULL; } return h; }
+static inline std::string hex16(uint64_t x) { char b[32]; std::snprintf(b, sizeof b, "%016llx", (unsigned long long)x); return b; }
+template<class T> static inline std::string exact_str(T v) {
+    if (!std::isfinite((double)v)) return "nan";
+    if (v == 0) return "0";
+    int e; T m = std::frexp(v, &e);
+    const int D = std::numeric_limits<T>::digits;
+    long long mi = (long long)std::ldexp(m, D); e -= D;
+    while (mi % 2 == 0 && e < 0) { mi /= 2; ++e; }
+    if (e >= 0) { if (e > 8) return "big"; return std::to_string(mi * (1LL << e)); }
+    if (-e > 62) return "tiny";
+    return std::to_string(mi) + "/" + std::to_string(1LL << (-e));
+}
+template<class T> static inline std::string digest_vals(const T* p, size_t cnt) {
+    uint64_t h = 14695981039346656037ULL;
+    for (size_t k = 0; k < cnt; ++k) { h = fnv1a(h, exact_str(p[k])); h = fnv1a(h, ";"); }
+    return hex16(h);
+}
+template<class T> static inline std::string oracle_exact(size_t n, const T* A, const T* X) {
+    bool xa = true, ax = true;
+    for (size_t i = 0; i < n; ++i) for (size_t j = 0; j < n; ++j) {
+        ld s1 = 0, s2 = 0;
+        for (size_t k = 0; k < n; ++k) { s1 += (ld)X[i*n+k] * (ld)A[k*n+j]; s2 += (ld)A[i*n+k] * (ld)X[k*n+j]; }
+        if (!(s1 == (i == j ? 1 : 0))) xa = false;
+        if (!(s2 == (i == j ? 1 : 0))) ax = false;
+    }
+    return xa && ax ? "ok" : (!xa && !ax ? "XA+AX" : (!xa ? "XA" : "AX"));
+}
+template<class T, int S, size_t n>
+static std::string run_exact(const std::vector<long>& a) {
+    Tensor<T,n,n> A; for (size_t k = 0; k < n * n; ++k) A.data()[k] = (T)a[k];
+    std::string pstr;
+    if (is_piv(S)) { Tensor<size_t,n> P; pivot_inplace(A, P); for (size_t i = 0; i < n; ++i) pstr += (i ? "," : "") + std::to_string(P(i)); }
+    Tensor<T,n,n> X = Call<T,S,n>::go(A);
+    std::string res = "DEF=1 X=" + digest_vals(X.data(), n * n);
+    if (!pstr.empty()) res += " P=" + pstr;
+    return res + " ORACLE=" + oracle_exact(n, A.data(), X.data());
+}
+template<class T, size_t NB, size_t J>
+static std::string run_exact_batched(const std::vector<long>& a) {
+    Tensor<T,NB,J,J> A; for (size_t k = 0; k < NB * J * J; ++k) A.data()[k] = (T)a[k];
+    Tensor<T,NB,J,J> X = inverse(A);
+    std::string o = "ok"; for (size_t b = 0; b < NB; ++b) { std::string ob = oracle_exact(J, A.data() + b*J*J, X.data() + b*J*J); if (ob != "ok") o = ob; }
+    return "DEF=1 X=" + digest_vals(X.data(), NB * J * J) + " ORACLE=" + o;
+}
+template<class T, size_t N1, size_t N2, size_t J>
+static std::string run_exact_batched4(const std::vector<long>& a) {
+    const size_t NB = N1 * N2;
+    Tensor<T,N1,N2,J,J> A; for (size_t k = 0; k < NB * J * J; ++k) A.data()[k] = (T)a[k];
+    Tensor<T,N1,N2,J,J> X = inverse(A);
+    std::string o = "ok"; for (size_t b = 0; b < NB; ++b) { std::string ob = oracle_exact(J, A.data() + b*J*J, X.data() + b*J*J); if (ob != "ok") o = ob; }
+    return "DEF=1 X=" + digest_vals(X.data(), NB * J * J) + " ORACLE=" + o;
+}
+typedef std::string (*runner_t)(const std::vector<long>&);
+static std::map<std::string, runner_t> g_runners;      // key: <type>/<variant>/<n>  or  <type>/batched[4]/<nb>/<J>
+template<class T> static inline const char* tname() { return sizeof(T) == 4 ? "float" : "double"; }
+#define REG_X(T, S, N) c10r::g_runners[std::string(c10r::tname<T>()) + "/" + icall::names[icall::S] + "/" + std::to_string(N)] = &c10r::run_exact<T, icall::S, N>
+#define REG_XB(T, NB, J) c10r::g_runners[std::string(c10r::tname<T>()) + "/batched/" + std::to_string(NB) + "/" + std::to_string(J)] = &c10r::run_exact_batched<T, NB, J>
+#define REG_XB4(T, N1, N2, J) c10r::g_runners[std::string(c10r::tname<T>()) + "/batched4/" + std::to_string((N1)*(N2)) + "/" + std::to_string(J)] = &c10r::run_exact_batched4<T, N1, N2, J>
+
+static void run_exact_file(const char* path) {
+    std::ifstream in(path);
+    std::string line;
+    static const char* types[] = {"float", "double"};
+    while (std::getline(in, line)) {
+        if (line.empty()) continue;
+        std::istringstream ss(line);
+        std::string tok, strat, astr; size_t n = 0, nb = 0;
+        while (ss >> tok) {
+            if (tok.rfind("strat=", 0) == 0) strat = tok.substr(6);
+            else if (tok.rfind("n=", 0) == 0) n = std::stoul(tok.substr(2));
+            else if (tok.rfind("nb=", 0) == 0) nb = std::stoul(tok.substr(3));
+            else if (tok.rfind("a=", 0) == 0) astr = tok.substr(2);
+        }
+        std::vector<long> a; { std::istringstream as(astr); std::string t; while (std::getline(as, t, ',')) a.push_back(std::stol(t)); }
+        for (const char* ty : types) {
+            std::vector<std::pair<std::string, std::string>> keys;
+            if (strat == "batched") {
+                keys.push_back({std::string(ty) + "/batched/" + std::to_string(nb) + "/" + std::to_string(n), "rank3"});
+                keys.push_back({std::string(ty) + "/batched4/" + std::to_string(nb) + "/" + std::to_string(n), "rank4"});
+            } else {
+                int b = variant_id(strat);
+                for (int v = 0; v < NVAR; ++v) if (base_of[v] == b) keys.push_back({std::string(ty) + "/" + names[v] + "/" + std::to_string(n), names[v]});
+            }
+            for (auto& kk : keys) {
+                auto it = g_runners.find(kk.first);
+                if (it == g_runners.end()) continue;
+                std::string res = it->second(a);
+                std::printf("%s via=%s T=%s cfg=%s | %s\n", line.c_str(), kk.second.c_str(), ty, CFGNAME, res.c_str());
+            }
+        }
+    }
 }
 } // namespace c10r
 using c10r::run_real; using c10r::run_real_batched;
